@@ -2,6 +2,7 @@
 From Coq Require Import List NArith ZArith Bool Arith String.
 Import ListNotations.
 Require Import Scan Pos DQ SQ.
+Require Emit EmitSQ EmitDQ.
 
 (* KIND C02_double_quoted_scalar_roundtrip : U *)
 (* for EVERY text t over printable ASCII (spaces, apostrophes included), the 15 single-letter escapes and \xHH code points,
@@ -22,6 +23,47 @@ Theorem C02_single_quoted_scalar_roundtrip : forall t z tail s,
   exists tok s', scan_flow_scalar false s = Ok (tok, s') /\ t_kind tok = TScalar t false SSingle /\ rest s' = (z :: tail)%list.
 Proof. exact sq_roundtrip. Qed.
 Eval vm_compute in "ASSUME:C02_single_quoted_scalar_roundtrip"%string. Print Assumptions C02_single_quoted_scalar_roundtrip.
+
+(* KIND C02_double_quoted_emit_then_scan : U *)
+(* emitter model and scanner model TOGETHER: for every text over printable ASCII, the 15 single-letter escapes and \xHH code points,
+   every emitter state with allow_unicode off standing after whitespace, and without folding (split = False, as for simple keys):
+   write_double_quoted succeeds, and whatever scanner state holds the text it wrote followed by any non-empty tail,
+   scan_flow_scalar returns a double-quoted scalar token with exactly that text and stops at the tail *)
+Theorem C02_double_quoted_emit_then_scan : forall (text : Emit.str) s tail, forallb simple text = true -> tail <> [] ->
+  Emit.allow_unicode s = false -> Emit.whitespace s = true ->
+  exists s' w, Emit.write_double_quoted text false s = Emit.Ok (tt, s') /\ EmitSQ.otext s' = (EmitSQ.otext s ++ w)%list /\
+    forall sc, rest sc = (w ++ tail)%list ->
+      exists tok sc', scan_flow_scalar true sc = Ok (tok, sc') /\ t_kind tok = TScalar text false SDouble /\ rest sc' = tail.
+Proof. exact EmitDQ.double_quoted_emit_then_scan. Qed.
+Eval vm_compute in "ASSUME:C02_double_quoted_emit_then_scan"%string. Print Assumptions C02_double_quoted_emit_then_scan.
+(* KIND C02_single_quoted_emit_then_scan : U *)
+(* the same for write_single_quoted: every text over printable ASCII, any emitter state standing after whitespace, no folding; the
+   character after the closing apostrophe must not be another apostrophe *)
+Theorem C02_single_quoted_emit_then_scan : forall text s z tail, forallb raw1 text = true -> z <> 39%N -> Emit.whitespace s = true ->
+  exists s' w, Emit.write_single_quoted text false s = Emit.Ok (tt, s') /\ EmitSQ.otext s' = (EmitSQ.otext s ++ w)%list /\
+    forall sc, rest sc = (w ++ z :: tail)%list ->
+      exists tok sc', scan_flow_scalar false sc = Ok (tok, sc') /\ t_kind tok = TScalar text false SSingle /\ rest sc' = (z :: tail)%list.
+Proof. exact EmitSQ.single_quoted_emit_then_scan. Qed.
+Eval vm_compute in "ASSUME:C02_single_quoted_emit_then_scan"%string. Print Assumptions C02_single_quoted_emit_then_scan.
+(* KIND C02_quoted_writers_text : U *)
+(* what the two writers of the emitter model put on the stream, for EVERY text (double quoted: any code points) and every state: an
+   optional separating space, the quote, the escaped body of the round-trip theorems above, the quote *)
+Theorem C02_quoted_writers_text :
+  (forall (text : Emit.str) s, Emit.allow_unicode s = false -> exists s', Emit.write_double_quoted text false s = Emit.Ok (tt, s') /\
+     EmitSQ.otext s' = (EmitSQ.otext s ++ (if Emit.whitespace s then [] else [Emit.SP]) ++ 34%N :: body text ++ [34%N])%list) /\
+  (forall text s, forallb raw1 text = true -> exists s', Emit.write_single_quoted text false s = Emit.Ok (tt, s') /\
+     EmitSQ.otext s' = (EmitSQ.otext s ++ (if Emit.whitespace s then [] else [Emit.SP]) ++ 39%N :: body1 text ++ [39%N])%list).
+Proof. split; [exact EmitDQ.write_double_quoted_text|exact EmitSQ.write_single_quoted_text]. Qed.
+Eval vm_compute in "ASSUME:C02_quoted_writers_text"%string. Print Assumptions C02_quoted_writers_text.
+(* KIND C02_quoted_nonvacuous : F *)
+(* the hypotheses are met by the initial emitter state (whitespace, allow_unicode off) and a text with apostrophes, quotes, a tab and a space *)
+Example C02_quoted_nonvacuous :
+  let s0 := Emit.init false false None None [10%N] in
+  let t := [105; 116; 39; 115; 32; 34; 92; 9]%N in
+  Emit.whitespace s0 = true /\ Emit.allow_unicode s0 = false /\ forallb simple t = true /\ forallb raw1 (firstn 7 t) = true /\
+  (match Emit.write_double_quoted t false s0 with Emit.Ok (_, s') => EmitSQ.otext s' = [34; 105; 116; 39; 115; 32; 92; 34; 92; 92; 92; 116; 34]%N | _ => False end) /\
+  (match Emit.write_single_quoted (firstn 7 t) false s0 with Emit.Ok (_, s') => EmitSQ.otext s' = [39; 105; 116; 39; 39; 115; 32; 34; 92; 39]%N | _ => False end).
+Proof. vm_compute. repeat split; reflexivity. Qed.
 
 (* PARTIAL (FULL: forall v opts, load (dump v opts) ~ v): only the double-quoted (the universal fallback style) and single-quoted scalar layers
    without folding is a theorem.  Value<->node, node<->event and the other four scalar styles are decided by the
